@@ -242,7 +242,10 @@ def mar (env : Env) (L : Leaves) : Nat → Ty → Val → R Val
   | n + 1, t, v =>
     match t with
     | .scalar s => L.mar s v
-    | .none => .ok v
+    | .none =>
+      match v with
+      | .none => .ok .none
+      | _ => .error .value
     | .any => .ok v
     | .literal vs => if Val.exactMem v vs then .ok v else .error .value
     | .enum _ =>
